@@ -106,6 +106,12 @@ let dispatch op r =
       let o = z_of_int (next_int r) in let l = z_of_int (next_int r) in
       let tex = rd_str r in let cm = rd_zlist r in
       pr_result (fun (a, b) -> pz a; pz b) (m_map_match_position o l tex cm)
+  | "file_list" ->
+      let skips = rd_list r rd_str in
+      let fs = rd_list r (fun r -> let n = rd_str r in let v = rd_list r rd_str in (n, v)) in
+      let incl = rd_bool r in let files = rd_list r rd_str in
+      let skip f = List.exists (fun s -> s = f) skips in
+      pr_result (fun l -> pr_list pr_str l) (m_file_list skip fs incl files)
   | _ -> raise Not_found
 
 let () =
